@@ -87,6 +87,7 @@ class World {
     bool failed_cleanly = false;  // set by a handler that observed the documented failure value under a fired fault
     size_t base_live = 0;      // ledger live blocks when the world was created
     int profile = 0;           // value-generation profile (plan knob)
+    bool wide = false;         // plan knob: parsed documents hold wide containers (33+ members) much more often
     // C16: the patch being assembled step by step (model side) and the reference document it is generated against
     MVal *pending_patch = nullptr;
     MVal *pending_ref = nullptr;
